@@ -170,7 +170,7 @@ def pin_check(pid, imports, theorems, timeout=600):
         path = os.path.join(d, f"{pid}_pin_{idx}.v")
         with open(path, "w") as f:
             f.write("".join(f"From PL Require Import {i}.\n" for i in imports))
-            f.write("From Coq Require Import String ZArith NArith List.\nImport ListNotations.\n")
+            f.write("From Coq Require Import String ZArith NArith List.\nImport ListNotations.\nLocal Open Scope string_scope.\nLocal Open Scope list_scope.\n")
             f.write(f"Check ({name} : {stmt}).\nPrint Assumptions {name}.\n")
         rc, out, err = sh(["coqc", "-noglob", "-Q", COQ, "PL", path], timeout=timeout, cwd=d)
         res = {"name": name, "ok": False, "axioms": [], "error": None}
